@@ -175,6 +175,11 @@ def make_plan(seed: int, tier: str, index: int) -> dict[str, Any]:
                 gen.add_far_events(g, base_doc)
             if index % 16 == 5 and k == 0:
                 gen.add_many_notes(g, base_doc, g.choice([520, 700, 1100]))
+            if index % 16 == 13 and k % 12 == 0:
+                # a tempo map of 34-90 events (count thresholds in the look-up)
+                while len(base_doc["tempos"]) < 34 + (k * 7 + index) % 57:
+                    lt = base_doc["tempos"][-1][0]
+                    base_doc["tempos"].append([lt + g.choice([1, 2, base_doc["resolution"]]), g.choice(gen.BPM_POOL)])
         if f.random() < (0.05 if long_run else 0.3):
             lines = corrupt.assemble(f)
             ops: list[dict[str, Any]] = []
